@@ -165,6 +165,11 @@ def write_replay(prop, clause, trace, hashseeds, detail, seed, extra=None):
     return path
 
 
+def want_h(v, histories):
+    h = v.get('hashseed')
+    return [h] if h is not None else sorted(histories or {'0': None})
+
+
 def run_sequence(prop, tier, hashseed, seeds, clause):
     """Execute run seeds in order in ONE fresh interpreter; the violations
     of the last run that carry ``clause`` (None: harness error)."""
@@ -302,6 +307,7 @@ def explore(prop, tier, seed, budget, fixed_runs, nworkers, quiet=False):
     max_inflight = len(pool.workers) * 3
     stop_new = False
     hist = {}     # run seed -> {hashseed: seeds its worker had executed}
+    unrepro = set()
     try:
         while True:
             now = time.time()
@@ -426,10 +432,25 @@ def explore(prop, tier, seed, budget, fixed_runs, nworkers, quiet=False):
                     path = sequence_replay(prop, tier, v, rs, hist.get(rs),
                                            print)
                     if path is None:
-                        raise HarnessError(
-                            'violation of %s at seed %d did not reproduce on '
-                            're-execution, nor with the history of its '
-                            'interpreter' % (v['clause'], rs))
+                        # the oracle did see the violation, in two or more
+                        # interpreters or not, but neither the trace nor the
+                        # history of its interpreter brings it back: the code
+                        # under test depends on something outside the seams
+                        # (object addresses, allocator state).  Reported with
+                        # the history as a best-effort replay, marked as such.
+                        path = write_replay(
+                            prop, v['clause'], trace, want_h(v, hist.get(rs)),
+                            v['detail'], '%s-unreproducible' % rs,
+                            {'note': 'observed once; not reproduced by '
+                                     're-execution nor by the history of its '
+                                     'interpreter %s' % (
+                                         (hist.get(rs) or {}).get(
+                                             v.get('hashseed')),)})
+                        unrepro.add(path)
+                        print('NOTE: %s at run seed %d was observed but does '
+                              'not reproduce from a fresh interpreter: the '
+                              'outcome depends on something outside the '
+                              'seams' % (v['clause'], rs))
                     lines.append('VIOLATION property=%s replay=%s' % (
                         prop, path))
                     agg.violations += 1
@@ -488,6 +509,9 @@ def explore(prop, tier, seed, budget, fixed_runs, nworkers, quiet=False):
         # each replay is confirmed once more in fresh interpreters
         for ln in lines:
             rp = ln.split('replay=')[1]
+            if rp in unrepro:
+                print(ln)
+                continue
             rc = replay(rp) if os.environ.get('VERIF_NO_CONFIRM') != '1' else 1
             if rc != 1:
                 print('HARNESS-ERROR replay file %s did not reproduce in a '
